@@ -1134,6 +1134,107 @@ fn pool1_contribute(a: &[&str]) -> String {
     }
 }
 
+/// pool2_run <divisibility hi> <divisibility lo> <reserves hi> <reserves lo> <pool unit supply> <ops...>
+/// `hi` / `lo` = the pool resource with the larger / smaller address (vault1 / vault2 of the blueprint after its sort).
+/// ops: `C <amount hi> <amount lo> <swap 0|1>` contribute two fresh buckets (swap = pass them in the other order), prints
+/// `ok <minted> <deposited hi> <deposited lo> <change hi> <change lo>` or `err`; `R <units>` redeem freshly minted-like
+/// units taken from the supply, prints `ok <returned hi> <returned lo>` or `err`. Runs the REAL TwoResourcePoolBlueprint
+/// over the MockApi resource ledger.
+fn pool2_run(a: &[&str]) -> String {
+    use radix_common::prelude::*;
+    use radix_engine::blueprints::pool::v1::substates::two_resource_pool::*;
+    use radix_engine_interface::blueprints::resource::*;
+    use radix_native_sdk::resource::ResourceManager;
+    let fungible = |b: u8| {
+        let mut x = [b; NodeId::LENGTH];
+        x[0] = EntityType::GlobalFungibleResourceManager as u8;
+        ResourceAddress::new_or_panic(x)
+    };
+    let (hi, lo, unit) = (fungible(9), fungible(3), fungible(5));
+    let mk = |b: u8| {
+        let mut x = [b; NodeId::LENGTH];
+        x[0] = EntityType::InternalGenericComponent as u8;
+        NodeId(x)
+    };
+    let mut api = mock_api::MockApi::default();
+    api.ledger = true;
+    api.divisibility.insert(hi.into(), a[0].parse().unwrap());
+    api.divisibility.insert(lo.into(), a[1].parse().unwrap());
+    let (vhi, vlo) = (mk(20), mk(21));
+    api.amounts.insert(vhi, dec(a[2]));
+    api.amounts.insert(vlo, dec(a[3]));
+    api.outer_objects.insert(vhi, hi.into());
+    api.outer_objects.insert(vlo, lo.into());
+    api.supply.insert(unit.into(), dec(a[4]));
+    let state = VersionedTwoResourcePoolState::from(TwoResourcePoolStateVersions::V1(Substate {
+        vaults: [(lo, Vault(Own(vlo))), (hi, Vault(Own(vhi)))],
+        pool_unit_resource_manager: ResourceManager(unit),
+    }));
+    api.fields.insert(0u8, scrypto_encode(&state).unwrap());
+    let mut out: Vec<String> = vec![];
+    let mut i = 5;
+    let mut bucket_no = 100u8;
+    while i < a.len() {
+        match a[i] {
+            "C" => {
+                let (chi, clo, swap) = (dec(a[i + 1]), dec(a[i + 2]), a[i + 3] == "1");
+                i += 4;
+                let (bhi, blo) = (mk(bucket_no), mk(bucket_no + 1));
+                bucket_no += 2;
+                api.amounts.insert(bhi, chi);
+                api.amounts.insert(blo, clo);
+                api.outer_objects.insert(bhi, hi.into());
+                api.outer_objects.insert(blo, lo.into());
+                let (r0, r1) = (api.amounts[&vhi], api.amounts[&vlo]);
+                let s0 = api.supply[&GlobalAddress::from(unit)];
+                let buckets = if swap { (Bucket(Own(blo)), Bucket(Own(bhi))) } else { (Bucket(Own(bhi)), Bucket(Own(blo))) };
+                match TwoResourcePoolBlueprint::contribute(buckets, &mut api) {
+                    Ok((_units, change)) => {
+                        let minted = api.supply[&GlobalAddress::from(unit)].checked_sub(s0).unwrap();
+                        let (d0, d1) = (api.amounts[&vhi].checked_sub(r0).unwrap(), api.amounts[&vlo].checked_sub(r1).unwrap());
+                        let (mut ch, mut cl) = (Decimal::ZERO, Decimal::ZERO);
+                        if let Some(b) = change {
+                            let amt = *api.amounts.get(&b.0 .0).unwrap_or(&Decimal::ZERO);
+                            if api.outer_objects[&b.0 .0] == GlobalAddress::from(hi) {
+                                ch = amt;
+                            } else {
+                                cl = amt;
+                            }
+                        }
+                        out.push(format!("ok {} {} {} {} {}", minted.attos(), d0.attos(), d1.attos(), ch.attos(), cl.attos()));
+                    }
+                    Err(_) => out.push("err".into()),
+                }
+            }
+            "R" => {
+                let units = dec(a[i + 1]);
+                i += 2;
+                let b = mk(bucket_no);
+                bucket_no += 1;
+                api.amounts.insert(b, units);
+                api.outer_objects.insert(b, unit.into());
+                match TwoResourcePoolBlueprint::redeem(Bucket(Own(b)), &mut api) {
+                    Ok((b1, b2)) => {
+                        let (mut rh, mut rl) = (Decimal::ZERO, Decimal::ZERO);
+                        for x in [b1, b2] {
+                            let amt = *api.amounts.get(&x.0 .0).unwrap_or(&Decimal::ZERO);
+                            if api.outer_objects[&x.0 .0] == GlobalAddress::from(hi) {
+                                rh = amt;
+                            } else {
+                                rl = amt;
+                            }
+                        }
+                        out.push(format!("ok {} {}", rh.attos(), rl.attos()));
+                    }
+                    Err(_) => out.push("err".into()),
+                }
+            }
+            _ => return "bad-script".to_string(),
+        }
+    }
+    out.join(" ")
+}
+
 /// authzone_run <kind rule|amount> <rk 0 NF|1 Resource> <rr> <ri> <amount attos> <dcp_some> <dcp> <gck> <gca> <g zone|-1>
 ///              <n zones> { <parent zone|-1> <sim res> <impl res> <impl id> <n proofs> {<res> <amount> <id>}* }*
 /// Zone 0 is the actor's own auth zone. Resources: 0 XRD, 1 ACCOUNT_OWNER_BADGE, 5 PACKAGE_OF_DIRECT_CALLER, 6 GLOBAL_CALLER,
@@ -1355,6 +1456,7 @@ fn auth_run(a: &[&str]) -> String {
 fn run(a: &[&str]) -> String {
     match a[0] {
         "auth_run" => auth_run(&a[1..]),
+        "pool2_run" => pool2_run(&a[1..]),
         "pool1_contribute" => pool1_contribute(&a[1..]),
         "worktop_run" => worktop_run(&a[1..]),
         "account_batch" => account_batch(&a[1..]),
